@@ -465,6 +465,8 @@ func (self *PathNode) handleChild(in *[]PathNode, lp *int, cp *int, p *binary.Bi
 		con = con[:l+1]
 	}
 	v := &con[l]
+	// the slot may come from a reused tree: children left over from a previous load do not belong to this value
+	v.Next = v.Next[:0]
 	l += 1
 
 	start := p.Read
